@@ -336,6 +336,7 @@ PROPS["C12"] = dict(
                 12: "delivered-bytes-not-a-prefix-of-what-the-peer-wrote", 13: "cancelled-handshake-without-context-error-or-transport-left-open",
                 14: "application-data-sent-after-close", 15: "read-succeeded-after-fatal-error", 16: "write-succeeded-after-fatal-error",
                 17: "delivered-data-that-follows-a-record-answered-with-a-fatal-error",
+                18: "dial-with-an-honest-peer-failed-or-the-connection-did-not-outlive-the-bound",
                 "hang": "hang"},
     assumptions=[
         "calls on one connection are sequential; a record becomes readable as a whole except for the last one before the end of the transport",
